@@ -25,6 +25,9 @@ type GoShape struct {
 
 func goInt(k Kind, i int64, sh GoShape) interface{} {
 	if sh.AllIntAsInt {
+		if k == BYTE && sh.ByteAsUint8 {
+			return int(uint8(i))
+		}
 		return int(i)
 	}
 	switch k {
